@@ -281,10 +281,13 @@ def make_graph(chk, sc, gid, rng, nlibs):
     return dict(gid=gid, graph=graph, gfile=gfile, gdir=gdir, moddir=moddir)
 
 
-def make_cases(chk, sc, g, rng, sims, nsim, npairs, nprog):
+def make_cases(chk, sc, g, rng, sims, nsim, npairs, nprog, deep=False):
     gid = g["gid"]
-    allc, r1 = tlc_gen(sc, g["gfile"], "g%d_all" % gid, exhaustive_depth=(2 if chk.thorough else 1), maxids=(1 if chk.thorough else 2), timeout=900,
-                       pool=(["z"] if chk.thorough else ["a", "z"]))
+    if deep:      # every import set with <= 2 modifiers (smaller menus)
+        allc, r1 = tlc_gen(sc, g["gfile"], "g%d_all" % gid, exhaustive_depth=2, maxids=1, timeout=1200, pool=["z"])
+    else:         # every import set with <= 1 modifier
+        allc, r1 = tlc_gen(sc, g["gfile"], "g%d_all" % gid, exhaustive_depth=1, maxids=2, timeout=900,
+                           pool=(RENAME_POOL if chk.thorough else ["a", "z"]))
     simc, r2 = tlc_gen(sc, g["gfile"], "g%d_sim" % gid, sims=sims, seed=chk.seed * 1000 + gid)
     seen, singles = set(), []
     for c in allc:
@@ -387,16 +390,18 @@ def validate(sc, g, runs, label):
             f.write("\n".join(r["lines"]) + "\n")
     r = vlib.run_tlc("ImportTrace.tla", "ImportTrace.cfg", sc.path, env={"GRAPH": g["gfile"], "CASES": g["cfile"], "TRACE": tf},
                      workers=1, timeout=900, heap="3g")
-    verdicts, cur = [], None          # [id, verdict, reason, detail text]
+    verdicts, cur, indetail = [], None, False          # [id, verdict, reason, detail text]
     for line in r.out.splitlines():
         m = VERDICT.match(line)
         if m:
-            cur = [int(m.group(1)), m.group(2), m.group(3), ""]
+            cur, indetail = [int(m.group(1)), m.group(2), m.group(3), ""], False
             verdicts.append(cur)
-        elif cur is not None and (line.startswith("<<") or line.startswith(" ")) and "TRACE_REJECTED_AT" not in line:
+        elif cur is not None and re.match(r'<< ?"DETAIL"', line):
+            cur[3], indetail = line.strip(), True
+        elif cur is not None and indetail and line.startswith(" "):
             cur[3] += " " + line.strip()
         else:
-            cur = None
+            indetail = False              # e.g. an interleaved progress line of TLC
     return dict(label=label, trace=tf, tlc=r, verdicts=verdicts, runs=runs)
 
 
@@ -408,12 +413,14 @@ def rejected_at(r):
 def case_key(g, case, reason, detail):
     """Structural name of a rejected case (reporting only; the rejection itself is TLC's)."""
     sets = case["sets"]
-    sh = shape(sets[0]) + ("+%d" % (len(sets) - 1) if len(sets) > 1 else "")
+    used = sorted({m for e in sets for m in mods(e)}) or ["lib"]
     if reason == "import-error":
         if case_only_over_renamed(sets, g["graph"]) and ("unknown binding" in detail or "reference itself" in detail):
             return "only-over-renamed-id"
-        return "import-error:" + sh
-    return reason + ":" + sh
+        return "import-error:" + "+".join(used)
+    if reason == "instances":
+        return "instances"
+    return reason + ":" + "+".join(used)
 
 
 def run():
@@ -434,13 +441,14 @@ def run():
 
         def mc(item):
             return item, vlib.run_tlc("ImportMC.tla", item[0], sc.path, workers=4, timeout=1700, heap="4g", coverage=(item[0] == "ImportRunMC.cfg"))
-        ngraphs = 8 if chk.thorough else 3
+        ngraphs = 6 if chk.thorough else 3
 
         def prepare(gid):
             rng = random.Random(chk.seed * 7919 + gid)
             g = make_graph(chk, sc, gid, rng, 4 if gid % 3 == 0 else 6)
-            return make_cases(chk, sc, g, rng, sims=(200 if chk.thorough else 60), nsim=(3000 if chk.thorough else 300),
-                              npairs=(400 if chk.thorough else 60), nprog=(60 if chk.thorough else 12))
+            return make_cases(chk, sc, g, rng, sims=(250 if chk.thorough else 60), nsim=(3000 if chk.thorough else 300),
+                              npairs=(400 if chk.thorough else 60), nprog=(60 if chk.thorough else 12),
+                              deep=(chk.thorough and gid == 3))
         with ThreadPoolExecutor(max_workers=5) as ex:
             fm = [ex.submit(mc, it) for it in mcs]
             fg = [ex.submit(prepare, gid) for gid in range(1, ngraphs + 1)]
@@ -459,6 +467,9 @@ def run():
             runs = vlib.parallel(lambda j: (j[0], run_env_batch(build, j[0], j[2], j[3]) if j[1] == "env" else run_prog(build, j[0], j[2][0], j[3])),
                                  jobs, jobs=8)
             timing["implementation_runs_done_at"] = round(time.time() - t0, 1)
+            slow = [r["label"] for _, r in runs if r["rc"] == -9]
+            if slow:
+                raise Broken("driver processes %s hit the time limit (overloaded machine?): no verdict" % slow[:5])
             # ---------------- TLC decides: shards of several processes of one graph
             shards = []
             for g in graphs:
@@ -487,7 +498,11 @@ def run():
         stats = {"ok": 0, "rejected": 0, "skipped": 0}
         rejected = {}          # key -> rejected cases; one report per key, with the smallest case as the replay
         kinds_seen, mods_ok, depth_ok, nvisible, distinct, okprog = set(), {}, {}, 0, set(), 0
-        for g, v in vals:
+        # rule out tool flakiness: a shard with rejections must be rejected the same way once more
+        again = vlib.parallel(lambda gv: validate(sc, gv[0], gv[1]["runs"], gv[1]["label"] + "_again")
+                              if (rejected_at(gv[1]["tlc"]) or any(x[1] == "rejected" for x in gv[1]["verdicts"])) else None, vals, jobs=6)
+        timing["revalidated_at"] = round(time.time() - t0, 1)
+        for (g, v), v2 in zip(vals, again):
             r = v["tlc"]
             ra = rejected_at(r)
             if r.error and not ra:
@@ -502,13 +517,19 @@ def run():
                 got[i] = (verdict, reason, detail)
             rej = sorted(i for i in got if got[i][0] == "rejected")
             if rej or ra:
-                # rule out tool flakiness: the same trace must be rejected the same way once more
-                v2 = validate(sc, g, v["runs"], v["label"] + "_again")
-                if sorted(x[0] for x in v2["verdicts"] if x[1] == "rejected") != rej or rejected_at(v2["tlc"]) != ra:
+                if v2 is None or sorted(x[0] for x in v2["verdicts"] if x[1] == "rejected") != rej or rejected_at(v2["tlc"]) != ra:
                     raise Broken("TLC verdicts on graph %d shard %s are not reproducible" % (g["gid"], v["label"]))
+            recorded = {}
+            for run in v["runs"]:
+                for x in run["lines"]:
+                    if '"e":"Imported"' in x and '"err":1' in x:
+                        ev = json.loads(x)
+                        recorded[ev["id"]] = ev.get("msg", "")
             for i in rej:
                 case = g["cases"][i - 1]
                 _, reason, detail = got[i]
+                if reason == "import-error":
+                    detail = "recorded diagnostic: " + recorded.get(i, "?")
                 key = case_key(g, case, reason, detail)
                 size = sum(len(json.dumps(e)) for e in case["sets"]) + 1000 * len(closure_of(case["sets"], g["graph"]))
                 rejected.setdefault(key, []).append((size, g["gid"], i, g, case, reason, detail))
@@ -571,7 +592,7 @@ def run():
         chk.cov["evaluations"] = total
         chk.cov["distinct_nontrivial"] = len(distinct)
         chk.cov["rule"] = ("a case = one program / environment importing 1-3 TLC-generated well-formed import sets over a generated library graph "
-                           "(all import sets with <= 1 modifier enumerated by TLC, deeper ones TLC-simulated to nesting depth 4), observed name by name "
+                           "(all import sets with <= 1 modifier (thorough: <= 2 on one graph) enumerated by TLC, deeper ones TLC-simulated to nesting depth 4), observed name by name "
                            "over the universe of all names; non-trivial = at least one modifier or several sets; distinct = distinct (graph, path, import sets)")
         chk.cov["cases"] = stats
         chk.cov["programs_accepted"] = okprog
@@ -584,12 +605,15 @@ def run():
         chk.cov["nesting_depth_of_accepted_sets"] = {str(k): depth_ok[k] for k in sorted(depth_ok)}
         chk.cov["binding_kinds_observed"] = sorted(kinds_seen)
         chk.sample({"library": render_lib(len(graphs[0]["graph"]["libs"]), graphs[0]["graph"]["libs"][-1])})
+        if chk.violations:
+            return chk.finish()          # rejections stand; coverage thresholds are judged on runs without a new violation
         if stats["ok"] < 100:
             raise Broken("vacuous: only %d cases accepted (%s)" % (stats["ok"], stats))
         if stats["skipped"] * 5 > total:
             raise Broken("vacuous: %d of %d cases were not well-formed" % (stats["skipped"], total))
         need = {"only", "except", "rename", "prefix", "drop"}
-        if need - set(mods_ok) or not depth_ok.get(4) or not {"var", "proc", "mac", "tick"} <= kinds_seen or not okprog:
+        # (a known finding takes whole libraries out, so the spread of the remaining cases is not required then)
+        if not chk.known_hits and (need - set(mods_ok) or not depth_ok.get(4) or not {"var", "proc", "mac", "tick"} <= kinds_seen or not okprog):
             raise Broken("vacuous: accepted cases cover modifiers %s, depths %s, kinds %s, programs %d" % (mods_ok, depth_ok, sorted(kinds_seen), okprog))
         if not chk.cov["corrupted_record_rejected"]:
             raise Broken("binding not demonstrated: no shard suitable for the corruption test")
